@@ -291,4 +291,4 @@ def run_shard(ctx) -> None:
             ctx.excluded(INTERNAL_ALIAS, case["steered"])
         return _describe(case)
 
-    ctx.run_hypothesis(strategy(ctx), check_case, max_examples=ctx.scale(800, 25000), describe=describe)
+    ctx.run_hypothesis(strategy(ctx), check_case, max_examples=ctx.scale(600, 25000), describe=describe)
